@@ -21,6 +21,7 @@ type orC09 struct {
 	attempts map[string]int // per incarnation: leave attempts seen with several masters
 	aware    map[string]bool // hosts whose daemon has read the acknowledged record (and so wrote its maintenance file)
 	mastersAtEnter map[string][]string // per incarnation: alive masters when its current Maintenance iteration began
+	noMgrSince time.Duration // light maintenance: since when nobody holds the manager lock (-1: somebody does)
 	served   map[string]bool // hosts whose daemon received (reply delivered) a read of the acknowledged record
 }
 
@@ -115,6 +116,44 @@ func (o *orC09) onZK(e *ZKEvent) {
 		}
 	}
 	_ = s
+}
+
+// light maintenance does not stop the election: while it is acknowledged, some living daemon
+// that can reach ZooKeeper takes the manager lock within a few ticks
+func (o *orC09) afterEvent() {
+	m := o.m
+	s := m.s
+	if !m.primary["C09"] {
+		return
+	}
+	if !(o.exists && o.mode == "light" && o.acked && !o.leaving) || m.lockOwner != "" || s.net.zkDown {
+		if o.noMgrSince >= 0 && m.lockOwner != "" && o.exists && o.mode == "light" {
+			m.probe("c09_light_manager_reelected")
+		}
+		o.noMgrSince = -1
+		return
+	}
+	now := s.now()
+	if o.noMgrSince < 0 {
+		o.noMgrSince = now
+		return
+	}
+	cfg := &s.spec.Cfg
+	bound := 6*ms(cfg.TickMs) + 2*ms(cfg.SessionTimeoutMs) + 5*time.Second
+	if now-o.noMgrSince <= bound {
+		return
+	}
+	var able []string
+	for _, d := range s.daemons {
+		if d.kind == "daemon" && d.alive && d.startedAt < o.noMgrSince && !s.net.blocked(d.host, "zk") && m.isHA(d.host) {
+			able = append(able, d.inc)
+		}
+	}
+	if len(able) > 0 {
+		sort.Strings(able)
+		m.violate("C09", "light_no_manager", "nobody-manages-in-light-maintenance", fmt.Sprintf("light maintenance is acknowledged and for %v nobody has held the manager lock although %v are alive and connected", now-o.noMgrSince, able))
+		o.noMgrSince = now
+	}
 }
 
 // a daemon that reached the Maintenance state knows (and has written its maintenance file)
